@@ -926,8 +926,23 @@ class Uni:
             if self.v[j][0] != "C14":
                 self.v.append(("C14", "during the serve probe: " + self.v[j][1]))
 
+    def warm_up(self):
+        """one transaction of every kind from each peer, so that whatever the node may legitimately keep per configured realm /
+        application / peer (a routing cache, a retransmission window per origin) exists in the compared runs alike"""
+        for who in ("cer1", "cer2"):
+            self.apply("accept")
+            if not self.apply(who + "@new"):
+                continue
+            if not self.eps[-1].ready:
+                continue
+            for act in ("req", "req_bad", "req_realm", "req_app9", "reqT", "dwr"):
+                self.apply(act + "@new")
+            for name in ("app_req0", "app_req1"):
+                self.apply(name)
+
     def wind_down(self):
         """every pending request is answered (or refused), every connection ends"""
+        self.warm_up()
         while self.pending:
             k, req, ep, rec = self.pending.pop(0)
             try:
